@@ -253,13 +253,26 @@ def run(ctx):
             "corr_mismatches": corr_mismatches, "corr_errors": corr_errors, "probe_failures": probe_failures}
 
 
+def _structure(res_):
+    return [[s_.get("solver"), list(s_.get("state_variables", [])), sorted(s_.keys()), list(s_.get("update_expressions", {}).keys()), list(s_.get("initial_values", {}).keys())] for s_ in res_] if isinstance(res_, list) else res_
+
+
 def replay(payload):
+    """the command-line run of the replay file against the API on the same dictionary and flags"""
     rp = payload.get("replay") or {}
     if "job" not in rp:
         return True, "replay file names a broken obligation (no concrete input): " + str(payload.get("no_longer_checks"))[:500]
     j = rp["job"]
     c = cli_run(j)
     want = stem_of(j["path"]) + "_result.json"
-    if j["kind"] in ("valid", "analytic") and j["spec"]["dsc"]:
-        return c["status"] == 0 and c["written"] == [want], "exit %s, written %s, expected %s" % (c["status"], c["written"], want)
-    return (c["status"] != 0 and not c["written"]) or j["kind"] in ("valid", "analytic"), "exit %s, written %s" % (c["status"], c["written"])
+    a = None
+    if j.get("content") is not None and j["kind"] in API_KINDS:
+        r = C.run_tasks([{"fn": "c16.api_run", "cases": [{"content": j["content"], "kwargs": expected_kwargs(j["spec"])}]}], timeout=600)[0]
+        a = r["outs"][0] if r.get("outcome") == "Ok" else None
+    if a is not None and a["outcome"] == "Ok":
+        if c["status"] != 0 or c["written"] != [want]:
+            return False, "exit %s, written %s; the API succeeds, expected exit 0 and %s" % (c["status"], c["written"], want)
+        if str(j.get("hashseed", "0")) == "0":
+            return c["content"] == a["result"], "result file %s the API's answer" % ("equals" if c["content"] == a["result"] else "differs from")
+        return _structure(c["content"]) == _structure(a["result"]), "structure under PYTHONHASHSEED=%s: %s; API: %s" % (j.get("hashseed"), json.dumps(_structure(c["content"]))[:300], json.dumps(_structure(a["result"]))[:300])
+    return (c["status"] != 0 and not c["written"]), "exit %s, written %s (the API outcome is %s: a non-zero exit status and no file are required)" % (c["status"], c["written"], a and a["outcome"])
